@@ -212,6 +212,15 @@ impl World {
                 v
             }
             Err(e) => {
+                // An op whose input slot was never produced because an EARLIER op already failed an
+                // oracle (e.g. sign ended in hang, so there is no signature to verify) is skipped;
+                // anything else that cannot be executed is a malformed schedule (harness error).
+                if e.ends_with("undefined") && !self.violations.is_empty() {
+                    self.note(format!("  SKIPPED {e}"));
+                    self.bump("harness.skipped-after-violation");
+                    self.last = Value::Null;
+                    return Value::Null;
+                }
                 self.note(format!("  INVALID {e}"));
                 self.invalid = Some(e);
                 Value::Null
@@ -292,6 +301,17 @@ impl World {
                     return Err("xorbyte beyond end".into());
                 }
                 v[pos] ^= gu(op, "val")? as u8;
+            }
+            "xorpair" => {
+                // the same mask XORed into two different bytes (differences that cancel under a
+                // folded comparison)
+                let (p1, p2) = (gu(op, "pos1")? as usize, gu(op, "pos2")? as usize);
+                if p1 >= v.len() || p2 >= v.len() || p1 == p2 {
+                    return Err("xorpair beyond end".into());
+                }
+                let m = gu(op, "val")? as u8;
+                v[p1] ^= m;
+                v[p2] ^= m;
             }
             "splice" => {
                 // overwrite bytes at `pos` with `hex` (must fit)
